@@ -199,12 +199,14 @@ func (b *Builder) epsilonClosureOnePass(root nfa.StateID) ([]closureEntry, bool,
 			b.matchMask = slots
 
 		case nfa.StateSplit:
-			// Follow both epsilon paths
+			// Follow both epsilon paths. The stack is LIFO, so the preferred
+			// (left) branch is pushed last: the closure then lists NFA states in
+			// priority order, which buildTransitions relies on.
 			left, right := state.Split()
-			if err := b.stackPush(left, slots); err != nil {
+			if err := b.stackPush(right, slots); err != nil {
 				return nil, false, err
 			}
-			if err := b.stackPush(right, slots); err != nil {
+			if err := b.stackPush(left, slots); err != nil {
 				return nil, false, err
 			}
 
@@ -286,6 +288,13 @@ func (b *Builder) buildTransitions(tableIdx int, closure []closureEntry) error {
 		state := b.nfa.State(entry.nfaID)
 		if state == nil {
 			continue
+		}
+
+		// Leftmost-first: everything after the match state in priority order is
+		// a path the match takes precedence over (e.g. the `ab` branch of a|ab,
+		// or one more iteration of a lazy loop); it must not extend the match.
+		if state.Kind() == nfa.StateMatch {
+			break
 		}
 
 		switch state.Kind() {
